@@ -137,6 +137,9 @@ impl Default for FrameParams {
     }
 }
 
+/// Upper bound on the memory reserved for a response body before any of its bytes arrived.
+const MAX_BODY_PREALLOCATION: usize = 1 << 20;
+
 /// Reads a response frame from the provided reader (usually, a socket).
 /// Then parses and validates the frame header and extracts the body.
 pub async fn read_response_frame(
@@ -173,7 +176,9 @@ pub async fn read_response_frame(
     // TODO: Guard from frames that are too large
     let length = buf.get_u32() as usize;
 
-    let mut raw_body = Vec::with_capacity(length).limit(length);
+    // The length comes from the wire: preallocate only up to a fixed amount and let
+    // the buffer grow as body bytes actually arrive.
+    let mut raw_body = Vec::with_capacity(length.min(MAX_BODY_PREALLOCATION)).limit(length);
     while raw_body.has_remaining_mut() {
         let n = reader.read_buf(&mut raw_body).await.map_err(|err| {
             FrameHeaderParseError::BodyChunkIoError(raw_body.remaining_mut(), err)
